@@ -4,7 +4,6 @@ import (
 	"bytes"
 	"errors"
 	"io"
-	"strconv"
 	"strings"
 
 	"github.com/benoitkugler/webrender/backend"
@@ -277,7 +276,7 @@ func (na nodeAttributes) miterLimit() (Fl, error) {
 	if !has {
 		attrValue = "4"
 	}
-	v, err := strconv.ParseFloat(attrValue, 32)
+	v, err := parseFloat(attrValue)
 	if v < 0 {
 		v = 4
 	}
